@@ -31,11 +31,17 @@ pub fn write_file(key: &String, content: &Content, to: &PathBuf) -> std::io::Res
                 use std::os::unix::fs::MetadataExt;
                 let own = file.metadata()?;
                 if own.uid() != metadata.uid() || own.gid() != metadata.gid() {
-                    let _ = std::os::unix::fs::fchown(
+                    // (a member of the note's group who is not its owner may not give the
+                    // file away, but may keep it in the group)
+                    if std::os::unix::fs::fchown(
                         &file,
                         Some(metadata.uid()),
                         Some(metadata.gid()),
-                    );
+                    )
+                    .is_err()
+                    {
+                        let _ = std::os::unix::fs::fchown(&file, None, Some(metadata.gid()));
+                    }
                 }
             }
         }
